@@ -17,6 +17,8 @@ class SpecMixin:
             fr.locals.update(extra_locals)
         try:
             return self.eval(node)
+        except PyRaise as pr:
+            raise Unsupported('specification expression raised %s: %s' % (self.exc_class_name(pr.exc), ast.unparse(node)))
         finally:
             if saved is not None:
                 fr.locals.clear()
@@ -29,6 +31,17 @@ class SpecMixin:
 
     def spec_special(self, e):
         name = e.func.id
+        if name == 'implies':
+            a = simp_bool(self.truth(self.eval(e.args[0])))
+            if a is False:
+                return True
+            try:
+                b = self.truth(self.eval(e.args[1]))
+            except PyRaise:
+                if a is True:
+                    raise Unsupported('specification expression is undefined: %s' % ast.unparse(e))
+                b = False       # undefined consequent under a symbolic guard: fail conservatively
+            return zor(znot(a), b)
         if name == 'old':
             if self.old_heap is None:
                 raise Unsupported('old() without a pre-state snapshot')
